@@ -73,7 +73,15 @@ def evaluate(v: Variant, root: str) -> dict:
         ok = not viols and not scratch.errors
         got = "silent" if ok else "; ".join(f"{o.rule}@{o.construct}" for o in viols[:4]) + ("; errors: " + "; ".join(scratch.errors[:2]) if scratch.errors else "")
     else:
-        hits = [o for o in viols if o.rule == v.expect and (v.construct is None or v.construct in o.construct or v.construct in o.stmt)]
+        def names(o) -> bool:
+            # the construct is named when every dotted part of the expected name occurs in the reported one (an implementation the public
+            # function delegates to, `_intersect_impl`, still names `intersect`)
+            if v.construct is None or v.construct in o.construct or v.construct in o.stmt:
+                return True
+            parts = [x for x in v.construct.split(".") if x]
+            return len(parts) > 1 and all(x.strip("_") in o.construct for x in parts)
+
+        hits = [o for o in viols if o.rule == v.expect and names(o)]
         ok = bool(hits)
         got = f"{hits[0].rule}@{hits[0].construct}" if hits else ("no violation" if not viols else "other: " + "; ".join(f"{o.rule}@{o.construct}" for o in viols[:4]))
         if not ok:
